@@ -299,8 +299,9 @@ fn err_what(e: &FitErr) -> String {
 fn binary_stream(rng: &mut Sm64, out: &mut Out, id: &mut u64, count: usize, thorough: bool) {
     for it in 0..count {
         let mut r = rng.fork();
-        let d = 1 + r.below(if thorough { 5 } else { 4 }) as usize;
-        let scales: Vec<f64> = (0..d).map(|_| *r.pick(&SCALES)).collect();
+        let wide = it % 9 == 8; // d >= 8: the eight-lane part of ndarray's unrolled_dot takes part in x.w
+        let d = if wide { *r.pick(&[8usize, 9, 11, 17]) } else { 1 + r.below(if thorough { 5 } else { 4 }) as usize };
+        let scales: Vec<f64> = (0..d).map(|_| if wide { *r.pick(&[0.5, 1.0, 2.0]) } else { *r.pick(&SCALES) }).collect();
         let alpha = *r.pick(&ALPHAS);
         let icpt = r.below(4) != 0;
         let tol = *r.pick(&[1e-2, 1e-3, 1e-4, 1e-4]);
@@ -467,27 +468,37 @@ fn multi_case_term(id: u64, labels: &[String], x: &[Vec<f64>], cfg: &MultiCfg, s
 fn multi_stream(rng: &mut Sm64, out: &mut Out, id: &mut u64, count: usize, thorough: bool) {
     for it in 0..count {
         let mut r = rng.fork();
-        let rowspread = it % 5 == 4; // the class that exposed finding F37 (global max in log_sum_exp)
+        let rowspread = it % 3 == 2; // the class that exposed finding F37 (global max in log_sum_exp)
         let k = if rowspread { 2 + r.below(2) as usize } else { 2 + r.below(5) as usize };
         let d = if rowspread { 1 + r.below(2) as usize } else { 1 + r.below(3) as usize };
-        let alpha = *r.pick(&ALPHAS);
+        let alpha = if rowspread { *r.pick(&[0.0, 1e-3, 1e-3, 1.0]) } else { *r.pick(&ALPHAS) };
         let icpt = if rowspread { r.chance(0.3) } else { r.below(4) != 0 };
         let tol = *r.pick(&[1e-2, 1e-3, 1e-4, 1e-4]);
         // conditioning: with an intercept column the features stay within a factor ~10 of 1; without one a common
-        // scale 1e-2..1e2 is harmless (L-BFGS on (d+1)*k > 10 unknowns converges too slowly otherwise)
+        // scale 1e-2..1e1 is harmless (L-BFGS on (d+1)*k > 10 unknowns converges too slowly otherwise: the gradient
+        // tolerance is absolute, so features of size 100 ask for a relative accuracy the cost-stagnation rule of the solver pre-empts)
         let scales: Vec<f64> = if rowspread {
             vec![1.0; d]
         } else if icpt {
             (0..d).map(|_| *r.pick(&[0.3, 1.0, 1.0, 3.0])).collect()
         } else {
-            let common = *r.pick(&[0.01, 0.1, 1.0, 10.0, 100.0]);
-            (0..d).map(|_| common * *r.pick(&[1.0, 1.0, 3.0])).collect()
+            let common = *r.pick(&[0.01, 0.1, 1.0, 3.0, 10.0]);
+            (0..d).map(|_| common * if common < 10.0 { *r.pick(&[1.0, 1.0, 3.0]) } else { 1.0 }).collect()
         };
         let core = alpha == 0.0 || r.chance(0.6);
-        let n_extra = if core { r.below(22) as usize } else { 3 * k + r.below(22) as usize };
+        let n_extra = if rowspread { 0 } else if core { r.below(22) as usize } else { 3 * k + r.below(22) as usize };
         let balance = *r.pick(&[0.0, 0.0, 1.5, -1.5]);
-        let mut data = gen_class_data(&mut r, k, d, &scales, n_extra, core, balance);
+        let mut data = gen_class_data(&mut r, k, d, &scales, n_extra, core || rowspread, balance);
         if rowspread {
+            // rows of unit scale whose label follows the sign of the first feature (noisily), so that the fitted
+            // weight of that feature is of order one ...
+            for _ in 0..(10 + r.below(12)) {
+                let row: Vec<f64> = (0..d).map(|_| r.gauss()).collect();
+                let cl = if k > 2 && r.chance(0.2) { 2 } else if row[0] + 0.8 * r.gauss() > 0.0 { 1 } else { 0 };
+                data.x.push(row);
+                data.ids.push(cl);
+            }
+            // ... and
             // a few rows far out along the first feature, labelled consistently with its sign
             for s in [-1.0f64, 1.0] {
                 for _ in 0..2 {
@@ -542,6 +553,9 @@ fn multi_stream(rng: &mut Sm64, out: &mut Out, id: &mut u64, count: usize, thoro
                         out.rust_eval(&desc, None);
                     }
                     Ok(f) => {
+                        let rowmax: Vec<f64> = x.iter().map(|row| (0..k).map(|c| (0..d).map(|j| row[j] * f.w[j][c]).sum::<f64>() + f.b[c]).fold(f64::MIN, f64::max)).collect();
+                        let spread = rowmax.iter().cloned().fold(f64::MIN, f64::max) - rowmax.iter().cloned().fold(f64::MAX, f64::min);
+                        if spread > 34.5 { out.bump("multi_fitted_row_spread_gt_34.5"); }
                         let term = multi_case_term(*id, &labels, &x, &cfg, true, &f, &q);
                         out.case(*id, &term, &tagrefs, &desc, Some(key));
                     }
